@@ -42,6 +42,8 @@ type jcrash struct {
 	Name   string   `json:"name"`
 	Ops    []wop    `json:"ops"`
 	Points []cpoint `json:"points,omitempty"` // empty: every write of the workload
+	// crash points that were re-executed: what was observed the first time
+	FirstOutcomes []string `json:"first_outcomes,omitempty"`
 }
 
 // ---- string -> number tables shared by a case ----
@@ -252,17 +254,19 @@ func execOp(p *dvh.Proc, o wop) (alive bool) {
 		_, _, a := p.HTTP("DELETE", "/api/node/"+v.vuuid[o.V]+"/"+o.Name+"/key/"+o.Key, nil)
 		return a
 	case "deldata":
-		m0, _, _ := p.Writes()
+		m0, d0 := p.WritesDone()
 		if _, a := p.Call("deldata", v.root[o.Repo], o.Name); !a {
 			return false
 		}
-		// the instance leaves the repo in a background goroutine: wait for its save
-		for i := 0; i < 400; i++ {
-			m, _, _ := p.Writes()
+		// the instance leaves the repo in a background goroutine: wait for its save AND for the
+		// deletion of its key-values (one DeleteAll), in whichever order the code does them
+		// (completed store calls are counted, so the next operation cannot overtake the deletion)
+		for i := 0; i < 2000; i++ {
+			m, d := p.WritesDone()
 			if p.Dead {
 				return false
 			}
-			if m > m0 {
+			if m > m0 && d > d0 {
 				break
 			}
 			time.Sleep(5 * time.Millisecond)
@@ -342,9 +346,17 @@ func runCrash(c jcrash, w *world, pt cpoint) (snapshot, int, string) {
 				break
 			}
 		}
+		// the injected death comes a grace period after the write returned: if the rest of the workload
+		// issued no further write, the child may still be in that period
+		for i := 0; i < 100 && !p.Dead; i++ {
+			time.Sleep(10 * time.Millisecond)
+			p.Writes()
+		}
 		if !p.Dead {
+			m, d, _ := p.Writes()
+			tail := p.StderrTail()
 			p.Kill()
-			return snapshot{}, 0, "crash point not reached"
+			return snapshot{}, 0, fmt.Sprintf("crash point not reached: %d metadata and %d data writes at the end of the workload %s", m, d, tail)
 		}
 	}
 	if p.Exit != 77 {
@@ -384,6 +396,127 @@ func runCrash(c jcrash, w *world, pt cpoint) (snapshot, int, string) {
 	p3.Quit()
 	return s, rec, ""
 }
+
+// ---- the property's oracle on one crash point, evaluated by the driver itself ----
+// It decides only whether a point is RE-EXECUTED: process death right after a store write returned was
+// seen to lose that write now and then inside the storage engine (harness/cmd/killcycle), which is
+// outside the property.  A genuine ordering defect is deterministic for a given kill point, so a
+// point is reported as it was first observed only if it fails again in both of two re-executions.
+func snapEqual(a, b snapshot) bool {
+	if a.OK != b.OK || len(a.Repos) != len(b.Repos) || len(a.KV) != len(b.KV) {
+		return false
+	}
+	for i := range a.KV {
+		if a.KV[i] != b.KV[i] {
+			return false
+		}
+	}
+	ints := func(x, y []int) bool {
+		if len(x) != len(y) {
+			return false
+		}
+		for i := range x {
+			if x[i] != y[i] {
+				return false
+			}
+		}
+		return true
+	}
+	for i := range a.Repos {
+		ra, rb := a.Repos[i], b.Repos[i]
+		if ra.RootV != rb.RootV || len(ra.Nodes) != len(rb.Nodes) || len(ra.Data) != len(rb.Data) {
+			return false
+		}
+		for k := range ra.Nodes {
+			x, y := ra.Nodes[k], rb.Nodes[k]
+			if x.V != y.V || x.Locked != y.Locked || x.Branch != y.Branch || !ints(x.Parents, y.Parents) || !ints(x.Children, y.Children) {
+				return false
+			}
+		}
+		for k := range ra.Data {
+			if ra.Data[k] != rb.Data[k] {
+				return false
+			}
+		}
+	}
+	return true
+}
+
+func pointHolds(ref reference, j int, s snapshot) bool {
+	if !s.OK {
+		return false
+	}
+	for _, r := range s.Repos {
+		for _, n := range r.Nodes {
+			if n.V == s.NewV {
+				return false
+			}
+		}
+		for _, d := range r.Data {
+			if d[1] == s.NewI {
+				return false
+			}
+		}
+	}
+	before, after := j-1, j
+	if before < 0 {
+		before = 0
+	}
+	ok := false
+	for _, k := range []int{before, after} {
+		if k >= 0 && k < len(ref.refs) && snapEqual(ref.refs[k], s) {
+			ok = true
+		}
+	}
+	return ok
+}
+
+// sameOutcome: same repos, key reads and next ids
+func sameOutcome(a, b snapshot) bool { return snapEqual(a, b) && a.NewV == b.NewV && a.NewI == b.NewI }
+
+type retryStats struct{ reexecuted, flaky, confirmed int }
+
+// runCrashRobust executes a crash point; prev is the outcome of the preceding after-mode point of the
+// same class (nil if none), lastWrite the trace label of the write the process died after ("" if unknown).
+func runCrashRobust(c jcase2, w *world, ref reference, pt cpoint, j int, prev *snapshot, lastWrite string, st *retryStats) (snapshot, int, string, string) {
+	s, rec, note := runCrash(c.jcrash, w, pt)
+	first := ""
+	failed := !pointHolds(ref, j, s)
+	suspicious := failed
+	// a write that changes what a restart shows (ids record, repo blob) and yet left the outcome of the
+	// preceding point: either it really changes nothing, or the engine lost it
+	if !suspicious && prev != nil && pt.Mode == "after" && (strings.HasPrefix(lastWrite, "P3") || strings.HasPrefix(lastWrite, "P4") || strings.HasPrefix(lastWrite, "D4")) && sameOutcome(*prev, s) {
+		suspicious = true
+	}
+	if !suspicious {
+		return s, rec, note, first
+	}
+	st.reexecuted++
+	first = coqSnap(s)
+	fails := 0
+	var alt snapshot
+	var altRec int
+	var altNote string
+	haveAlt := false
+	for i := 0; i < 2; i++ {
+		s2, rec2, note2 := runCrash(c.jcrash, w, pt)
+		if sameOutcome(s, s2) {
+			fails++
+		} else if !haveAlt {
+			alt, altRec, altNote, haveAlt = s2, rec2, note2, true
+		}
+	}
+	if fails == 2 {
+		if failed {
+			st.confirmed++
+		}
+		return s, rec, note, first
+	}
+	st.flaky++
+	return alt, altRec, altNote, first
+}
+
+type jcase2 struct{ jcrash }
 
 // ---- Coq printing ----
 func coqInts(xs []int) string {
@@ -485,8 +618,30 @@ func runCrashCase(run *lib.Run, c jcrash, o lib.Opts) {
 	}
 	var ps, psDel []string
 	second := 0
+	var st retryStats
+	var firsts []string
+	prevOutcome := map[string]*snapshot{}
 	for _, pt := range pts {
-		s, rec, note := runCrash(c, w, pt)
+		cumP := ref.cumMeta
+		if pt.Class == "data" {
+			cumP = ref.cumData
+		}
+		lastWrite := ""
+		if pt.Class == "meta" && pt.Mode == "after" && pt.N >= 1 && pt.N <= len(ref.trace) {
+			lastWrite = ref.trace[pt.N-1]
+		}
+		var prev *snapshot
+		if pt.Mode == "after" && pt.N >= 1 {
+			prev = prevOutcome[pt.Class]
+		}
+		s, rec, note, first := runCrashRobust(jcase2{c}, w, ref, pt, opIndex(cumP, pt.N), prev, lastWrite, &st)
+		if first != "" {
+			firsts = append(firsts, fmt.Sprintf("%s:%d:%s first outcome %s", pt.Class, pt.N, pt.Mode, first))
+		}
+		if pt.Mode == "after" {
+			cp := s
+			prevOutcome[pt.Class] = &cp
+		}
 		if note != "" {
 			run.Count("crash-run:" + strings.SplitN(note, ":", 2)[0])
 			run.Notes = append(run.Notes, fmt.Sprintf("%s point %+v: %s", c.Name, pt, note))
@@ -517,7 +672,10 @@ func runCrashCase(run *lib.Run, c jcrash, o lib.Opts) {
 				lim = 0
 			}
 			for k := 1; k <= lim; k++ {
-				s2, _, note2 := runCrash(c, w, cpoint{Class: "meta", N: pt.N, Mode: "after", Second: k})
+				s2, _, note2, first2 := runCrashRobust(jcase2{c}, w, ref, cpoint{Class: "meta", N: pt.N, Mode: "after", Second: k}, j, nil, "", &st)
+				if first2 != "" {
+					firsts = append(firsts, fmt.Sprintf("meta:%d:after second %d first outcome %s", pt.N, k, first2))
+				}
 				if note2 != "" {
 					run.Notes = append(run.Notes, fmt.Sprintf("%s point %+v second %d: %s", c.Name, pt, k, note2))
 				}
@@ -526,6 +684,9 @@ func runCrashCase(run *lib.Run, c jcrash, o lib.Opts) {
 				second++
 			}
 		}
+	}
+	if len(firsts) > 0 {
+		c.FirstOutcomes = firsts
 	}
 	var refs []string
 	for _, s := range ref.refs {
@@ -562,6 +723,9 @@ func runCrashCase(run *lib.Run, c jcrash, o lib.Opts) {
 		}
 		run.Add("crash-instance-delete", mk(psDel), cd, "crashdel/"+strings.Join(kinds, ","))
 	}
+	run.Dist["retries"] += st.reexecuted
+	run.Dist["flaky_crash_points"] += st.flaky
+	run.Dist["confirmed_on_reexecution"] += st.confirmed
 	run.Dist["keys-left-after-DeleteAll"] += ref.leftover
 	run.Dist["crash-points"] += len(ps)
 	run.Dist["workload-ops"] += len(c.Ops)
